@@ -71,9 +71,13 @@ def _run_mutant(args):
         text = src.read_text()
     except OSError:
         return m["id"], "stale", "file missing"
-    if text.count(m["old"]) != 1:
-        return m["id"], "stale", "anchor text occurs %d times" % text.count(m["old"])
-    new_text = text.replace(m["old"], m["new"])
+    olds = m["old"] if isinstance(m["old"], (list, tuple)) else [m["old"]]
+    news = m["new"] if isinstance(m["new"], (list, tuple)) else [m["new"]]
+    new_text = text
+    for o, nw in zip(olds, news):
+        if new_text.count(o) != 1:
+            return m["id"], "stale", "anchor text occurs %d times: %r" % (new_text.count(o), o[:50])
+        new_text = new_text.replace(o, nw)
     if m["file"].endswith(".py"):
         try:
             compile(new_text, m["file"], "exec")
@@ -145,11 +149,21 @@ def run(prop, ctx):
                 continue
             new = [(r, k) for r, k in payload if k not in base_keys]
             hit = [k for r, k in new if m.rule is None or r == m.rule]
+            if m.rule == "SILENT":
+                # behaviour-preserving (or property-preserving) edit: no new finding allowed
+                if new:
+                    missed.append("%s (property-preserving edit raised: %s)" % (mid, [k[:100] for _, k in new][:3]))
+                    results["details"].append({"mutant": mid, "status": "false-alarm"})
+                else:
+                    results["caught"] += 1
+                    results["details"].append({"mutant": mid, "status": "silent-as-required", "edit": "%s: %r -> %r" % (
+                        m.file, str(m.old)[:70], str(m.new)[:70])})
+                continue
             if hit:
                 results["caught"] += 1
                 results["details"].append({"mutant": mid, "status": "caught", "rule": m.rule,
                                            "finding": hit[0][:200], "edit": "%s: %r -> %r" % (
-                                               m.file, m.old[:70], m.new[:70])})
+                                               m.file, str(m.old)[:70], str(m.new)[:70])})
             else:
                 missed.append("%s (expected a new %s finding; new findings: %s)" % (
                     mid, m.rule or "any", [k[:80] for _, k in new][:3]))
